@@ -33,7 +33,7 @@ EXHAUSTIVE = {"quick": ["EQU aliases of a label (plain / +2 / -1, direct or thro
                         "every third program of the C03 label,PCR distance families (single, spanning, crossing), judged by the layout walk"],
               "thorough": ["all programs of the C03 label,PCR distance families, judged by the layout walk"]}
 
-_neg = st.sampled_from(["dup_label", "undef_symbol", "second_org", "code_before_org", "org_here", "org_here", "org_twice"])
+_neg = st.sampled_from(["dup_label", "undef_symbol", "second_org", "code_before_org", "org_here", "org_here", "org_twice", "end_early"])
 _case = st.one_of(
     st.fixed_dictionaries(dict(prog=proggen.program)),
     st.fixed_dictionaries(dict(prog=proggen.program)),
@@ -207,6 +207,16 @@ def apply_negative(case):
         pos = body[case["at"] % len(body)] + 1          # right after some byte-emitting statement (instruction or data)
         stmts.insert(pos, {"lab": "", "k": "org", "addr": (prog["org"] + 0x1000 + case["at2"] * 16) % 0xE000})
         return prog, neg
+    if neg == "end_early":
+        # END is a directive that emits nothing, wherever it stands: statements after it are laid out, listed and
+        # emitted like any others (a valid program, judged by the ordinary walk)
+        body = [i for i, s in enumerate(stmts) if proggen.size_bounds(s)[0] > 0]
+        if len(body) < 2:
+            return prog, None
+        pos = body[case["at"] % (len(body) - 1)] + 1
+        labs = [s["lab"] for s in stmts if s.get("lab") and s["k"] in proggen.INSTR_KINDS]
+        stmts.insert(pos, {"lab": "", "k": "end", "to": labs[case["at2"] % len(labs)] if labs and case["at2"] % 2 else None})
+        return prog, neg
     if neg == "org_twice":
         # an earlier ORG (a template default) overridden by the program's own before any byte is emitted: a valid
         # program, judged by the ordinary walk - the origin is the one in force when the first byte is emitted
@@ -276,7 +286,7 @@ def execute(case):
     if neg:
         labels.append("negative")
         labels.append("neg:" + neg)
-    if neg == "org_twice":
+    if neg in ("org_twice", "end_early"):
         neg = None
     if neg in ("dup_label", "undef_symbol"):
         if out.kind == "DIAG":
